@@ -212,6 +212,12 @@ def eval_channels(case) -> Outcome:
                     compare("vu", r, "Site")
                 else:
                     out.fail("C16.channel_vu_raises", f"value-with-unit channel raised {r}: {call_sut.last_message}")
+            elif ch == "vu_mixed":
+                okr, r = call_sut(pinch_analysis_service, S.apply_spelling(copy.deepcopy(base), case.get("spelling") or [1, 0]), "Site")
+                if okr:
+                    compare("vu_mixed", r, "Site")
+                else:
+                    out.fail("C16.channel_vu_mixed_raises", f"mixed bare / value-with-unit spelling {case.get('spelling')} raised {r}: {call_sut.last_message}")
             elif ch in ("json", "csvdir", "csvpair", "xlsx", "from_json"):
                 d = os.path.join(tmp, ch)
                 os.makedirs(d, exist_ok=True)
@@ -386,9 +392,11 @@ def channel_case(draw, tier):
         if draw(st.integers(0, 4)) == 0:
             u["name"] = draw(st.sampled_from(AWKWARD))
         us.append(u)
-    chans = draw(st.lists(st.sampled_from(["model", "vu", "json", "from_json", "csvdir", "csvpair", "xlsx"]), min_size=3, max_size=5, unique=True))
+    chans = draw(st.lists(st.sampled_from(["model", "vu", "vu_mixed", "json", "from_json", "csvdir", "csvpair", "xlsx"]), min_size=3, max_size=5, unique=True))
     ops = draw(st.lists(st.sampled_from(["target", "target", "export"]), min_size=0, max_size=3))
     case = {"streams": ss, "utilities": us, "channels": chans, "ops": ops, "preload": draw(st.integers(0, 2)) == 0, "preload_same_path": draw(st.booleans()), "reload_model": draw(st.integers(0, 2)) == 0}
+    if "vu_mixed" in chans:
+        case["spelling"] = draw(st.lists(st.integers(0, 3), min_size=2, max_size=11).filter(lambda l: any(l) and not all(l)))
     if draw(st.integers(0, 3)) == 0:
         case["options"] = draw(st.sampled_from([{"DT_CONT": 10.0}, {"DT_CONT": 2.5, "DT_PHASE_CHANGE": 0.5}, {"DO_VERTICAL_GCC": True}, {"DO_BALANCED_CC": False, "DT_CONT": 7.5}, {"UTILITY_PRICE": 0.0}, {"DT_CONT": 0.0, "UTILITY_PRICE": 0}, {"DO_BALANCED_CC": False}, {"UTILITY_PRICE": 125.5, "ANNUAL_OP_TIME": 8000}]))
     return case
